@@ -94,7 +94,9 @@ class FileReader(AbstractReader):
                 )
                 self._indexLoaded = True
 
-            if mibname in self._mibIndex:
+            if mibname in self._mibIndex and (
+                    'exts' not in options or
+                    os.path.splitext(self._mibIndex[mibname])[1] in options['exts']):
                 debug.logger & debug.flagReader and debug.logger(
                     'found %s in MIB index: %s' % (mibname, self._mibIndex[mibname]))
                 return [(mibname, self._mibIndex[mibname])]
